@@ -535,3 +535,13 @@ for _p in ('C08', 'C10', 'C11'):
 for _p in ('C05', 'C09'):
     for _t in ('quick', 'thorough'):
         PROPS[_p][_t] = PROPS[_p][_t] + [sideb(['packages'])]
+
+
+# identical names from different packages (C14's clause): the homonymous-package programs count for C14
+for _t in ('quick', 'thorough'):
+    PROPS['C14'][_t] = PROPS['C14'][_t] + [sideb(['packages'])]
+
+# the reject family (every rule through the real front end, positioned diagnostics) also in C20's quick tier and in C09
+PROPS['C20']['quick'] = PROPS['C20']['quick'] + [sideb(['reject'])]
+for _t in ('quick', 'thorough'):
+    PROPS['C09'][_t] = PROPS['C09'][_t] + [sideb(['reject'])]
